@@ -8,7 +8,7 @@ tables are compared with the spec's `srcPos` as data (`decide +kernel`), and a g
 into the position table.
 -/
 import DdsModel.Proofs.Bc6
-import DdsModel.Proofs.Bc7GlueIndex
+import DdsModel.Proofs.Bc7GlueCommon
 set_option linter.unusedSimpArgs false
 namespace Dds.Bc6
 open Dds.BcTables Dds.Bc6Spec Dds.Bc7
@@ -263,5 +263,160 @@ theorem extractTwo_eq (m : ModeTwo) (b : Nat) :
           | some p => rw [hs] at h; simp at h
         · omega
       · simp [hj16]
+
+/-! ### one-region modes: `extract_compressed_endpoints_one` with `consume_bits_rev` -/
+
+def recOne : ModeOne → ModeRec
+  | .M10_10 => modes[10]'(by decide) | .M11_9 => modes[11]'(by decide) | .M12_8 => modes[12]'(by decide)
+  | .M16_4 => modes[13]'(by decide)
+
+/-- the value `consume_bits_rev(n)` makes of the `n` stream bits `v` -/
+def revBits (n v : Nat) : Nat := if n ≥ 2 then reverseBits8 v >>> (8 - n) else v
+
+theorem revBits_ok : ∀ n, n < 7 → ∀ v, v < 2 ^ n →
+    revBits n v < 2 ^ n ∧ ∀ j, j < n → (revBits n v).testBit j = v.testBit (n - 1 - j) := by decide +kernel
+
+theorem revBits_testBit (n v j : Nat) (hn : n < 7) (hv : v < 2 ^ n) :
+    (revBits n v).testBit j = (decide (j < n) && v.testBit (n - 1 - j)) := by
+  obtain ⟨h1, h2⟩ := revBits_ok n hn v hv
+  by_cases hj : j < n
+  · simp [hj, h2 j hj]
+  · have : (revBits n v).testBit j = false :=
+      Nat.testBit_lt_two_pow (Nat.lt_of_lt_of_le h1 (Nat.pow_le_pow_right (by decide) (by omega)))
+    simp [hj, this]
+
+theorem consumeBitsRev_at (n b p : Nat) (hn : n < 7) :
+    consumeBitsRev n (b >>> p) = (revBits n (Bc7Spec.rd b p n), b >>> (p + n)) := by
+  by_cases h0 : n = 0
+  · subst h0
+    have : mask8 0 = 0 := by decide
+    simp [consumeBitsRev, revBits, this, Bc7.rd_zero]
+  · have hb : (b >>> p % U8) &&& mask8 n = Bc7Spec.rd b p n := by
+      have := consumeBits_at n b p (by omega) (by omega)
+      simp only [consumeBits, Prod.mk.injEq] at this
+      exact this.1
+    simp only [consumeBitsRev, hb, revBits, Nat.shiftRight_add]
+
+/-- bits of an `a` accumulator: ten direct bits, then `ext` bit-reversed extension bits -/
+theorem aval_testBit (b p q ext j : Nat) (hext : ext < 7) :
+    (Bc7Spec.rd b p 10 ||| (revBits ext (Bc7Spec.rd b q ext) <<< 10) % U32).testBit j =
+      ((if j < 10 then [p + j] else []) ++
+       (if 10 ≤ j ∧ j < 10 + ext then [q + (ext - 1 - (j - 10))] else [])).any (fun x => b.testBit x) := by
+  simp only [Nat.testBit_or, U32_eq, Nat.testBit_mod_two_pow, Nat.testBit_shiftLeft, rd_testBit,
+    revBits_testBit _ _ _ hext (rd_lt b q ext), List.any_append]
+  by_cases h1 : j < 10
+  · bsimp; simp
+  · by_cases h2 : j < 10 + ext
+    · have : ext - 1 - (j - 10) < ext := by omega
+      bsimp; simp
+    · bsimp; simp
+
+theorem bval_testBit (b p n j : Nat) :
+    (Bc7Spec.rd b p n).testBit j = (if j < n then [p + j] else []).any (fun x => b.testBit x) := by
+  rw [rd_testBit]
+  by_cases h : j < n <;> simp [h]
+
+/-- source positions of bit `j` of component (`c`, `e`) as `extract_compressed_endpoints_one` reads them -/
+def oneSrcG (bc ext c e j : Nat) : List Nat :=
+  if e = 0 then
+    (if j < 10 then [5 + 10 * c + j] else []) ++
+    (if 10 ≤ j ∧ j < 10 + ext then [35 + 10 * c + bc + (ext - 1 - (j - 10))] else [])
+  else (if j < bc then [35 + 10 * c + j] else [])
+
+def oneSrc (m : ModeOne) (c e j : Nat) : List Nat := oneSrcG (20 - m.a0BitCount) (m.a0BitCount - 10) c e j
+
+def oneOk (m : ModeOne) : Bool :=
+  let r := recOne m
+  r.regions == 1 && r.prec == m.a0BitCount && r.delta == (m.b0BitCount, m.b0BitCount, m.b0BitCount) &&
+  r.transformed == m.transformed && r.modeBits == 5 && r.modeBits + layoutBits r.layout == 65 &&
+  (List.range 3).all fun c => (List.range 2).all fun e => (List.range 16).all fun j =>
+    oneSrc m c e j == (srcPos r.layout r.modeBits c e j).toList &&
+    (!(srcPos r.layout r.modeBits c e j).isSome || decide (j < fieldWidth r c e))
+
+theorem oneOk_true (m : ModeOne) : oneOk m = true := by cases m <;> decide +kernel
+
+theorem oneSrcG_nil (bc ext c e j : Nat) (hbc : bc ≤ 16) (hext : ext ≤ 6) (hj : 16 ≤ j) :
+    oneSrcG bc ext c e j = [] := by
+  unfold oneSrcG
+  have h1 : ¬ j < 10 := by omega
+  have h2 : ¬ (10 ≤ j ∧ j < 10 + ext) := by omega
+  have h3 : ¬ j < bc := by omega
+  simp only [h1, h2, h3, if_false, List.append_nil, ite_self]
+
+theorem oneSrc_nil (m : ModeOne) (c e j : Nat) (hj : 16 ≤ j) : oneSrc m c e j = [] := by
+  apply oneSrcG_nil _ _ _ _ _ _ _ hj <;> cases m <;> decide
+
+/-- `extract_compressed_endpoints_one` in closed form -/
+theorem extractOne_at (m : ModeOne) (b : Nat) :
+    extractOne m (b >>> 5) =
+      ((List.range 3).map (fun c => Bc7Spec.rd b (5 + 10 * c) 10 |||
+          (revBits (m.a0BitCount - 10) (Bc7Spec.rd b (35 + 10 * c + (20 - m.a0BitCount)) (m.a0BitCount - 10)) <<< 10) % U32)
+        ++ (List.range 3).map (fun c => Bc7Spec.rd b (35 + 10 * c) (20 - m.a0BitCount)), b >>> 65) := by
+  cases m <;>
+    simp (disch := omega) only [extractOne, ModeOne.a0BitCount, Nat.reduceSub, consumeBits32_at, consumeBitsRev_at,
+      Nat.reduceAdd, Nat.reduceMul, Bc7.range3, List.map, List.cons_append, List.nil_append, Nat.add_zero]
+
+theorem ext_lt (m : ModeOne) : m.a0BitCount - 10 < 7 := by cases m <;> decide
+
+/-- `bc6_extract_eq_fields`, one-region modes -/
+theorem extractOne_eq (m : ModeOne) (b : Nat) :
+    (extractOne m (b >>> 5)).2 = b >>> 65 ∧
+    ∀ c, c < 3 →
+      (extractOne m (b >>> 5)).1.getD c 0 = rawField (recOne m) b c 0 ∧
+      (extractOne m (b >>> 5)).1.getD (3 + c) 0 = rawField (recOne m) b c 1 ∧
+      rawField (recOne m) b c 0 < 2 ^ fieldWidth (recOne m) c 0 ∧
+      rawField (recOne m) b c 1 < 2 ^ fieldWidth (recOne m) c 1 := by
+  have hok := oneOk_true m
+  simp only [oneOk, Bool.and_eq_true, beq_iff_eq, List.all_eq_true, List.mem_range, decide_eq_true_eq,
+    Bool.or_eq_true, Bool.not_eq_true'] at hok
+  obtain ⟨⟨⟨⟨⟨⟨_, _⟩, _⟩, _⟩, hmb⟩, _⟩, htab⟩ := hok
+  rw [extractOne_at]
+  refine ⟨rfl, ?_⟩
+  intro c hc
+  have hraw : ∀ e, e < 2 → ∀ j, (rawField (recOne m) b c e).testBit j = (oneSrc m c e j).any (fun p => b.testBit p) := by
+    intro e he j
+    rw [rawField_testBit]
+    by_cases hj : j < 16
+    · rw [(htab c hc e he j hj).1]; simp [hj]
+    · rw [oneSrc_nil m c e j (by omega)]; simp [hj]
+  have hlt : ∀ e, e < 2 → rawField (recOne m) b c e < 2 ^ fieldWidth (recOne m) c e := by
+    intro e he
+    apply Nat.lt_pow_two_of_testBit
+    intro j hj
+    rw [rawField_testBit]
+    by_cases hj16 : j < 16
+    · have := (htab c hc e he j hj16).2
+      rcases this with h | h
+      · cases hs : srcPos (recOne m).layout (recOne m).modeBits c e j with
+        | none => simp
+        | some p => rw [hs] at h; simp at h
+      · omega
+    · simp [hj16]
+  refine ⟨?_, ?_, hlt 0 (by decide), hlt 1 (by decide)⟩
+  · have hA : ((List.range 3).map (fun c => Bc7Spec.rd b (5 + 10 * c) 10 |||
+          (revBits (m.a0BitCount - 10) (Bc7Spec.rd b (35 + 10 * c + (20 - m.a0BitCount)) (m.a0BitCount - 10)) <<< 10) % U32)
+        ++ (List.range 3).map (fun c => Bc7Spec.rd b (35 + 10 * c) (20 - m.a0BitCount))).getD c 0 =
+        Bc7Spec.rd b (5 + 10 * c) 10 |||
+          (revBits (m.a0BitCount - 10) (Bc7Spec.rd b (35 + 10 * c + (20 - m.a0BitCount)) (m.a0BitCount - 10)) <<< 10) % U32 := by
+      have : c = 0 ∨ c = 1 ∨ c = 2 := by omega
+      rcases this with h | h | h <;> subst h <;> rfl
+    simp only []
+    rw [hA]
+    apply Nat.eq_of_testBit_eq
+    intro j
+    rw [hraw 0 (by decide) j, aval_testBit _ _ _ _ _ (ext_lt m)]
+    simp only [oneSrc, oneSrcG, if_true]
+  · have hB : ((List.range 3).map (fun c => Bc7Spec.rd b (5 + 10 * c) 10 |||
+          (revBits (m.a0BitCount - 10) (Bc7Spec.rd b (35 + 10 * c + (20 - m.a0BitCount)) (m.a0BitCount - 10)) <<< 10) % U32)
+        ++ (List.range 3).map (fun c => Bc7Spec.rd b (35 + 10 * c) (20 - m.a0BitCount))).getD (3 + c) 0 =
+        Bc7Spec.rd b (35 + 10 * c) (20 - m.a0BitCount) := by
+      have : c = 0 ∨ c = 1 ∨ c = 2 := by omega
+      rcases this with h | h | h <;> subst h <;> rfl
+    simp only []
+    rw [hB]
+    apply Nat.eq_of_testBit_eq
+    intro j
+    rw [hraw 1 (by decide) j, bval_testBit]
+    simp only [oneSrc, oneSrcG, Nat.reduceEqDiff, if_false, Nat.one_ne_zero]
 
 end Dds.Bc6
